@@ -150,6 +150,7 @@ func checkC09(c *Ctx) {
 	c09PSS(c)
 	c09KeyUsage(c)
 	c09ExtAgree(c)
+	c09SignedBytes(c)
 }
 
 // c09Creator: evaluate the raw/digest predicate of one creator over all models
